@@ -258,348 +258,48 @@ pub mod dl {
             assert!(unsafe { *p.add(i) } == 0, "allocate-zeroed returns zeros");
         }
 
-        // ---------------------------------------------------------------- small heap constructed directly
-        /// One segment of SMALL bytes, initialised by the allocator's own init_bins/init_top exactly as sys_alloc's
-        /// first-segment branch does for a mapping of that size.  (Production segments are multiples of 64 KiB: the
-        /// segment size is a parameter of the heap representation, not of the algorithms; 64 KiB byte arrays with
-        /// pointer-typed accesses exhaust the solver's memory - see DESIGN.md.)
-        pub const SMALL: usize = 2048;
-        #[repr(C, align(4096))]
-        pub struct SmallArena(pub [u64; SMALL / 8]);
-        pub unsafe fn small_heap(a: &mut Dlmalloc, mem: &mut core::mem::MaybeUninit<SmallArena>) {
-            let tbase = mem.as_mut_ptr() as *mut u8;
-            let o = os();
-            o.base = [tbase as usize, 0];
-            o.used = [true, false];
-            o.len = [SMALL, 0];
-            let k = ks();
-            k.model_no_faults();
-            k.hook = Some(hook_refuse);
-            k.max_calls = 8;
-            // in place: the bins are self-referential (bin.next = bin), the allocator must not move afterwards
-            a.footprint = SMALL;
-            a.max_footprint = SMALL;
-            a.least_addr = tbase;
-            a.seg.base = tbase;
-            a.seg.size = SMALL;
-            a.seg.flags = 0;
-            a.release_checks = MAX_RELEASE_CHECK_RATE;
-            // init_bins, unrolled by hand (its 32-iteration loop would force an unwind bound of 34 on every loop of the
-            // harness, and the tree loops with symbolic conditions then exhaust symbolic execution); the real
-            // init_bins runs in the fresh-heap harnesses
-            macro_rules! bins {
-                ($($i:expr),*) => { $( { let b = a.smallbin_at($i); (*b).next = b; (*b).prev = b; } )* };
-            }
-            bins!(0, 1, 2, 3, 4, 5, 6, 7, 8, 9, 10, 11, 12, 13, 14, 15, 16, 17, 18, 19, 20, 21, 22, 23, 24, 25, 26, 27, 28, 29, 30, 31);
-            a.init_top(tbase.cast(), SMALL - Dlmalloc::top_foot_size());
-        }
-        /// the OS refuses every further mapping (ENOMEM) and must not be asked to unmap anything
-        fn hook_refuse(_k: &mut K, n: usize, _a: &[usize; 6]) -> Option<usize> {
-            let o = os();
-            match n {
-                nr::MMAP | nr::MREMAP => {
-                    o.refused += 1;
-                    Some(err(12))
-                }
-                nr::MUNMAP => {
-                    o.bad_unmap += 1;
-                    Some(err(22))
-                }
-                _ => None,
-            }
-        }
-
-        // ---------------------------------------------------------------- (2b) symbolic histories on the small heap
-        #[derive(Copy, Clone)]
-        pub struct Slot {
-            pub ptr: *mut u8,
-            pub p: usize,
-            pub size: usize,
-            pub align: usize,
-            pub probe: usize,
-            pub tag: u8,
-            pub live: bool,
-        }
-        pub const NSLOT: usize = 3;
-        unsafe fn check_slots(sl: &[Slot; NSLOT]) {
-            let mut i = 0;
-            while i < NSLOT {
-                if sl[i].live {
-                    let a = sl[i];
-                    assert!(a.p % a.align == 0, "a live block is aligned as requested");
-                    assert!(a.p >= base(0) && a.p + a.size <= base(0) + SMALL, "a live block lies inside memory obtained from the OS");
-                    if a.size > 0 {
-                        assert!(*a.ptr.add(a.probe) == a.tag, "a block's bytes change only through its owner");
-                    }
-                    let mut j = i + 1;
-                    while j < NSLOT {
-                        if sl[j].live {
-                            assert!(disjoint(a.p, a.size, sl[j].p, sl[j].size), "live blocks do not overlap");
-                        }
-                        j += 1;
-                    }
-                }
-                i += 1;
-            }
-        }
-        /// One allocator call per step (a single call site each for malloc and free keeps symbolic execution small):
-        /// step = allocate into a free slot, or free a live slot; sizes 0..=max_size, alignment 1 << 0..=max_align_shift
-        unsafe fn history_mf(a: &mut Dlmalloc, mem: &mut core::mem::MaybeUninit<SmallArena>, steps: usize, max_size: usize, max_align_shift: u32) -> ([Slot; NSLOT], u32) {
-            small_heap(a, mem);
-            let mut sl = [Slot { ptr: core::ptr::null_mut(), p: 0, size: 0, align: 1, probe: 0, tag: 0, live: false }; NSLOT];
-            let mut nulls = 0u32;
-            let mut step = 0;
-            while step < steps {
-                let i: usize = kani::any();
-                kani::assume(i < NSLOT);
-                if !sl[i].live {
-                    let size: usize = kani::any();
-                    kani::assume(size <= max_size);
-                    let probe: usize = kani::any();
-                    kani::assume(probe < size || (size == 0 && probe == 0));
-                    let tag: u8 = kani::any();
-                    let sh: u32 = kani::any();
-                    kani::assume(sh <= max_align_shift);
-                    let align = 1usize << sh;
-                    let refused_before = os().refused;
-                    let p = a.malloc(size, align);
-                    if p.is_null() {
-                        assert!(os().refused > refused_before, "null only when the operating system refused memory");
-                        nulls += 1;
-                    } else {
-                        if size > 0 {
-                            *p.add(probe) = tag;
-                        }
-                        sl[i] = Slot { ptr: p, p: p as usize, size, align, probe, tag, live: true };
-                    }
-                } else {
-                    a.free(sl[i].ptr);
-                    sl[i].live = false;
-                }
-                check_slots(&sl);
-                assert!(os().bad_unmap == 0, "nothing is unmapped that was not mapped");
-                step += 1;
-            }
-            (sl, nulls)
-        }
-
-        // @ob C03 quick one_malloc_small_heap mod=dl::harness fns=Dlmalloc::malloc,Dlmalloc::inner_malloc,Dlmalloc::sys_alloc bound="ONE allocation of any size 0..=4096 and alignment <= 16 on the 2 KiB heap constructed directly (requests that do not fit: the OS refuses, null)" timeout=1800
-        #[kani::proof]
-        #[kani::unwind(6)]
-        pub fn one_malloc_small_heap() {
-            unsafe {
-                let mut mem = core::mem::MaybeUninit::<SmallArena>::uninit();
-                let mut a = Dlmalloc::new();
-                let (sl, n) = history_mf(&mut a, &mut mem, 1, 4096, 4);
-                kani::cover!(n == 1, "request larger than the heap: refused by the OS, null");
-                kani::cover!(sl[0].live && sl[0].size == 0, "zero-size block");
-                kani::cover!(sl[1].live && sl[1].size > 1000, "large block");
-            }
-        }
-
-        // ---------------------------------------------------------------- (2c) scripted histories: operations and sizes are LISTED, contents symbolic
-        #[derive(Copy, Clone)]
-        pub enum Op {
-            /// slot, size, align
-            M(usize, usize, usize),
-            /// calloc
-            Z(usize, usize, usize),
-            /// slot, new size
-            R(usize, usize),
-            F(usize),
-            /// the allocation must fail (OS refuses) and leave everything else intact
-            Mnull(usize, usize, usize),
-        }
-        pub const NS: usize = 8;
-        unsafe fn check_all(sl: &[Slot; NS], heap: usize) {
-            let mut i = 0;
-            while i < NS {
-                if sl[i].live {
-                    let a = sl[i];
-                    assert!(a.p % a.align == 0, "a live block is aligned as requested");
-                    assert!(a.p >= base(0) && a.p + a.size <= base(0) + heap, "a live block lies inside memory obtained from the OS");
-                    if a.size > 0 {
-                        assert!(*a.ptr.add(a.probe) == a.tag, "a block's bytes change only through its owner");
-                    }
-                    let mut j = i + 1;
-                    while j < NS {
-                        if sl[j].live {
-                            assert!(disjoint(a.p, a.size, sl[j].p, sl[j].size), "live blocks do not overlap");
-                        }
-                        j += 1;
-                    }
-                }
-                i += 1;
-            }
-        }
-        /// start of a listed script on the small heap; every block gets a symbolic tag byte at a symbolic index, so that
-        /// "the bytes of every other block are untouched" is decided for all positions at once
-        fn no_slots() -> [Slot; NS] {
-            [Slot { ptr: core::ptr::null_mut(), p: 0, size: 0, align: 1, probe: 0, tag: 0, live: false }; NS]
-        }
-        /// Writes the tag over the first <= 32 and the last <= 16 bytes of the block, at CONCRETE addresses (a store at a
-        /// symbolic address into the arena makes every later header read symbolic and symbolic execution explodes).
-        /// These are the bytes allocator metadata of a neighbour or of a free-list link would land on.
-        unsafe fn fill_edges(p: *mut u8, size: usize, tag: u8) {
-            let head = if size < 32 { size } else { 32 };
-            let mut i = 0;
-            while i < head {
-                *p.add(i) = tag;
-                i += 1;
-            }
-            let tail = if size < 16 { size } else { 16 };
-            let mut j = size - tail;
-            while j < size {
-                *p.add(j) = tag;
-                j += 1;
-            }
-        }
-        fn edge_probe(size: usize) -> usize {
-            let probe: usize = kani::any();
-            kani::assume(probe < size || (size == 0 && probe == 0));
-            kani::assume(probe < 32 || probe + 16 >= size);
-            probe
-        }
-        unsafe fn after(sl: &[Slot; NS]) {
-            check_all(sl, SMALL);
-            assert!(os().bad_unmap == 0, "nothing is unmapped that was not mapped");
-        }
-        unsafe fn do_m(a: &mut Dlmalloc, sl: &mut [Slot; NS], i: usize, size: usize, align: usize, z: bool) {
-            let probe = edge_probe(size);
-            let tag: u8 = kani::any();
-            let p = if z { a.calloc(size, align) } else { a.malloc(size, align) };
-            assert!(!p.is_null(), "the request fits the heap: it succeeds");
-            if z && size > 0 {
-                let anyi: usize = kani::any();
-                kani::assume(anyi < size);
-                assert!(*p.add(anyi) == 0, "allocate-zeroed returns zeros");
-            }
-            fill_edges(p, size, tag);
-            sl[i] = Slot { ptr: p, p: p as usize, size, align, probe, tag, live: true };
-            after(sl);
-        }
-        unsafe fn do_null(a: &mut Dlmalloc, sl: &mut [Slot; NS], size: usize, align: usize) {
-            let before = os().refused;
-            let p = a.malloc(size, align);
-            assert!(p.is_null() && os().refused > before, "null exactly because the operating system refused memory");
-            after(sl);
-        }
-        unsafe fn do_r(a: &mut Dlmalloc, sl: &mut [Slot; NS], i: usize, size: usize) {
-            let probe = edge_probe(size);
-            let tag: u8 = kani::any();
-            let old = sl[i];
-            let p = a.realloc(old.ptr, old.size, old.align, size);
-            assert!(!p.is_null(), "the request fits the heap: it succeeds");
-            if old.size > 0 && old.probe < size {
-                assert!(*p.add(old.probe) == old.tag, "reallocation preserves the common prefix");
-            }
-            fill_edges(p, size, tag);
-            sl[i] = Slot { ptr: p, p: p as usize, size, align: old.align, probe, tag, live: true };
-            after(sl);
-        }
-        unsafe fn do_f(a: &mut Dlmalloc, sl: &mut [Slot; NS], i: usize) {
-            a.free(sl[i].ptr);
-            sl[i].live = false;
-            after(sl);
-        }
-        macro_rules! op {
-            ($a:ident, $sl:ident, M($i:expr, $s:expr, $al:expr)) => { do_m(&mut $a, &mut $sl, $i, $s, $al, false) };
-            ($a:ident, $sl:ident, Z($i:expr, $s:expr, $al:expr)) => { do_m(&mut $a, &mut $sl, $i, $s, $al, true) };
-            ($a:ident, $sl:ident, Mnull($i:expr, $s:expr, $al:expr)) => { do_null(&mut $a, &mut $sl, $s, $al) };
-            ($a:ident, $sl:ident, R($i:expr, $s:expr)) => { do_r(&mut $a, &mut $sl, $i, $s) };
-            ($a:ident, $sl:ident, F($i:expr)) => { do_f(&mut $a, &mut $sl, $i) };
-        }
-        macro_rules! script {
-            ($name:ident, [$($k:ident($($arg:expr),*)),*]) => {
-                #[kani::proof]
-                #[kani::unwind(34)]
-                pub fn $name() {
-                    unsafe {
-                        // the arena is uninitialised = arbitrary content (memory is zero only the first time it is mapped)
-                        let mut mem = core::mem::MaybeUninit::<SmallArena>::uninit();
-                        let mut a = Dlmalloc::new();
-                        small_heap(&mut a, &mut mem);
-                        let mut sl = no_slots();
-                        $( op!(a, sl, $k($($arg),*)); )*
-                        assert!(a.footprint == SMALL, "the footprint does not grow: freed space is reused");
-                    }
-                }
-            };
-        }
-        script!(dbg_s1, [M(0, 24, 8)]);
-        script!(dbg_s2, [M(0, 24, 8), F(0)]);
-        script!(dbg_s3, [M(0, 24, 8), M(1, 40, 8), F(0), M(2, 24, 8)]);
-        // @ob C03 quick s_smallbin_reuse mod=dl::harness fns=Dlmalloc::malloc,Dlmalloc::free,Dlmalloc::insert_small_chunk,Dlmalloc::unlink_small_chunk bound="listed script: small-bin reuse and exact fit" timeout=600 nocover=1
-        script!(s_smallbin_reuse, [M(0, 24, 8), M(1, 40, 8), M(2, 24, 8), F(0), M(3, 24, 1), F(2), M(4, 20, 4), F(1), F(3), F(4), M(5, 1, 1), M(6, 0, 1)]);
-        // @ob C03 quick s_split_remainder mod=dl::harness fns=Dlmalloc::inner_malloc,Dlmalloc::replace_dv,Dlmalloc::tmalloc_small bound="listed script: split with a remainder >= / < MIN_CHUNK_SIZE, designated victim" timeout=600 nocover=1
-        script!(s_split_remainder, [M(0, 100, 8), M(1, 16, 8), F(0), M(2, 60, 8), M(3, 24, 8), M(4, 8, 8), F(2), M(5, 40, 8), M(6, 40, 8), F(1), F(3), F(4), F(5), F(6)]);
-        // @ob C03 quick s_tree_bins mod=dl::harness fns=Dlmalloc::insert_large_chunk,Dlmalloc::unlink_large_chunk,Dlmalloc::tmalloc_large,Dlmalloc::tmalloc_small,Dlmalloc::compute_tree_index bound="listed script: three large chunks (two of equal size) enter the tree bins, best fit takes them out again" timeout=900 nocover=1
-        script!(s_tree_bins, [M(0, 300, 8), M(1, 16, 8), M(2, 400, 8), M(3, 16, 8), M(4, 300, 8), M(5, 16, 8), F(0), F(2), F(4), M(6, 350, 8), M(0, 280, 8), M(2, 290, 8), M(7, 10, 8), F(6), F(0), F(2), F(1), F(3), F(5), F(7)]);
-        // @ob C03 quick s_coalesce mod=dl::harness fns=Dlmalloc::free,Dlmalloc::unlink_chunk,Dlmalloc::insert_chunk bound="listed script: backward, forward and both-sided coalescing, merge into top" timeout=600 nocover=1
-        script!(s_coalesce, [M(0, 100, 8), M(1, 100, 8), M(2, 100, 8), M(3, 100, 8), M(4, 100, 8), F(1), F(2), F(4), F(3), M(5, 380, 8), F(0), F(5)]);
-        // @ob C03 quick s_memalign mod=dl::harness fns=Dlmalloc::memalign,Dlmalloc::dispose_chunk bound="listed script: over-aligned blocks (32, 64, 256) with leader and trailer given back" timeout=900 nocover=1
-        script!(s_memalign, [M(0, 24, 8), M(1, 100, 64), M(2, 40, 256), M(3, 1, 32), F(1), M(4, 90, 32), F(0), F(2), F(3), F(4)]);
-        // @ob C03 quick s_realloc mod=dl::harness fns=Dlmalloc::realloc,Dlmalloc::inner_realloc,Dlmalloc::try_realloc_chunk bound="listed script: reallocation that shrinks, grows into top, grows into a free neighbour, and has to move" timeout=900 nocover=1
-        script!(s_realloc, [M(0, 100, 8), R(0, 40), R(0, 300), M(1, 50, 8), M(2, 50, 8), M(3, 16, 8), F(2), R(1, 90), R(0, 500), R(1, 10), F(0), F(1), F(3)]);
-        // @ob C03 quick s_realloc_aligned mod=dl::harness fns=Dlmalloc::realloc,Dlmalloc::memalign bound="listed script: reallocation of over-aligned blocks (32 and 64) that cannot grow in place keeps the alignment" timeout=900 nocover=1
-        script!(s_realloc_aligned, [M(0, 40, 32), M(1, 24, 8), R(0, 200), M(2, 40, 32), M(3, 8, 8), R(2, 120), M(4, 33, 64), M(5, 8, 8), R(4, 150), F(0), F(1), F(2), F(3), F(4), F(5)]);
-        // @ob C03 quick s_exhaustion mod=dl::harness fns=Dlmalloc::sys_alloc,Dlmalloc::malloc,Dlmalloc::free bound="listed script: the heap runs out, the OS refuses more, the call returns null, every block survives and the heap is fully usable afterwards" timeout=900 nocover=1
-        script!(s_exhaustion, [M(0, 1200, 8), M(1, 100, 8), Mnull(2, 1000, 8), Mnull(2, 700, 64), M(2, 300, 8), F(0), M(3, 1000, 8), Mnull(4, 5000, 8), F(1), F(2), F(3), M(5, 1500, 16), F(5)]);
-        // @ob C03 quick s_calloc_dirty mod=dl::harness fns=Dlmalloc::calloc,Dlmalloc::calloc_must_clear bound="listed script: allocate-zeroed over memory that was written and freed before" timeout=600 nocover=1
-        script!(s_calloc_dirty, [M(0, 200, 8), M(1, 64, 8), F(0), Z(2, 150, 8), Z(3, 30, 8), F(1), Z(4, 64, 16), F(2), F(3), F(4), Z(5, 600, 8), F(5)]);
-
-        // ---------------------------------------------------------------- (3) listed concrete histories (bounded execution, not a quantifier over histories)
-        fn fill(p: *mut u8, n: usize, v: u8) {
-            let mut i = 0;
-            while i < n {
-                unsafe { *p.add(i) = v };
-                i += 1;
-            }
-        }
-        fn intact(p: *mut u8, n: usize, v: u8) -> bool {
-            let i: usize = kani::any();
-            kani::assume(i < n);
-            unsafe { *p.add(i) == v }
-        }
+        // ---------------------------------------------------------------- (2b) two symbolic operations in a row
         fn disjoint(a: usize, an: usize, b: usize, bn: usize) -> bool {
             a + an <= b || b + bn <= a
         }
 
-        // @ob C03 quick history_small_bins mod=dl::harness fns=Dlmalloc::malloc,Dlmalloc::free,Dlmalloc::tmalloc_small,Dlmalloc::insert_small_chunk,Dlmalloc::unlink_small_chunk,Dlmalloc::realloc bound="ONE listed history: malloc 24, malloc 40, malloc 24, free #1, malloc 24 (reuse), realloc #2 40->200, free all; fill byte and probe index symbolic" timeout=2400 nocover=1
+        // @ob C03 quick two_mallocs_any_size mod=dl::harness fns=Dlmalloc::malloc,Dlmalloc::inner_malloc,Dlmalloc::sys_alloc,Dlmalloc::add_segment,Dlmalloc::init_top bound="fresh heap; two allocations in a row, sizes any 0..=70000 (second one may need a second mapping or be refused), alignment <= 16" timeout=2400 mem=30
         #[kani::proof]
-        #[kani::unwind(42)]
-        pub fn history_small_bins() {
-            let mut mem = core::mem::MaybeUninit::<SmallArena>::uninit();
+        #[kani::unwind(35)]
+        pub fn two_mallocs_any_size() {
+            let mut mem = Mem::uninit();
+            setup(false, &mut mem);
             let mut a = Dlmalloc::new();
-            unsafe { small_heap(&mut a, &mut mem) };
-            let v: u8 = kani::any();
+            let s1: usize = kani::any();
+            let s2: usize = kani::any();
+            kani::assume(s1 <= 70000 && s2 <= 70000);
             unsafe {
-                let p1 = a.malloc(24, 8);
-                let p2 = a.malloc(40, 8);
-                let p3 = a.malloc(24, 8);
-                assert!(!p1.is_null() && !p2.is_null() && !p3.is_null());
-                assert!(disjoint(p1 as usize, 24, p2 as usize, 40) && disjoint(p2 as usize, 40, p3 as usize, 24) && disjoint(p1 as usize, 24, p3 as usize, 24), "live blocks are disjoint");
-                fill(p2, 40, v);
-                fill(p3, 24, !v);
-                a.free(p1);
-                let p4 = a.malloc(24, 8);
-                assert!(!p4.is_null() && disjoint(p4 as usize, 24, p2 as usize, 40) && disjoint(p4 as usize, 24, p3 as usize, 24), "a reused block does not overlap live ones");
-                assert!(p4 == p1, "freed space is reused by an equal request");
-                fill(p4, 24, 0x5a);
-                assert!(intact(p2, 40, v) && intact(p3, 24, !v), "other blocks' bytes are untouched");
-                let p5 = a.realloc(p2, 40, 8, 200);
-                assert!(!p5.is_null() && intact(p5, 40, v), "reallocation preserves the common prefix");
-                assert!(disjoint(p5 as usize, 200, p3 as usize, 24) && disjoint(p5 as usize, 200, p4 as usize, 24));
-                assert!(intact(p3, 24, !v) && intact(p4, 24, 0x5a));
-                let fp = a.footprint;
-                a.free(p5);
-                a.free(p3);
-                a.free(p4);
-                assert!(a.footprint == fp, "freeing small blocks does not grow the footprint");
-                let p6 = a.malloc(24, 8);
-                assert!(!p6.is_null() && in_arena(p6 as usize, 24));
+                let p1 = a.malloc(s1, 8);
+                let refused1 = os().refused;
+                let p2 = a.malloc(s2, 16);
+                kani::cover!(!p1.is_null() && !p2.is_null() && os().mmaps == 2, "the second block needed a second mapping");
+                kani::cover!(!p1.is_null() && p2.is_null(), "the second request was refused");
+                kani::cover!(!p1.is_null() && !p2.is_null() && os().mmaps == 1, "both blocks from the first mapping");
+                if !p1.is_null() {
+                    assert!(p1 as usize % 16 == 0 && in_arena(p1 as usize, s1));
+                } else {
+                    assert!(refused1 > 0, "null only when the OS refused");
+                }
+                if !p2.is_null() {
+                    assert!(p2 as usize % 16 == 0 && in_arena(p2 as usize, s2));
+                    if !p1.is_null() {
+                        assert!(disjoint(p1 as usize, s1, p2 as usize, s2), "live blocks do not overlap");
+                    }
+                } else {
+                    assert!(os().refused > refused1, "null only when the OS refused");
+                }
+                assert!(os().bad_unmap == 0);
             }
-            assert!(os().bad_unmap == 0 && os().refused == 0, "the one segment served the whole history");
         }
+
+        // (3) Scripted multi-operation histories were built and measured, then removed: already a listed, fully concrete
+        // script of 5 operations (malloc, malloc, free, malloc, malloc) needs 10 min of symbolic execution, 8 million steps and
+        // 14-19 GB; `free` after any allocation makes the bin pointers read back from the arena non-constant for CBMC (the
+        // allocator masks pointer *values* for alignment, which symbolic execution cannot fold). See DESIGN.md section 10, C03.
     }
 }
